@@ -2394,7 +2394,7 @@ def _drop_pass(block: list[ast.stmt]) -> None:
         block[:] = keep or block[:1]
 
 
-def normalize(fn: ast.FunctionDef, cls: ast.ClassDef | None, qual: str, inliner: HelperInliner | None, keep: set[str] | None = None) -> ast.FunctionDef:
+def normalize(fn: ast.FunctionDef, cls: ast.ClassDef | None, qual: str, inliner: HelperInliner | None, keep: set[str] | None = None, _depth: int = 0) -> ast.FunctionDef:
     new = copy.deepcopy(fn)
     new = _StripCasts().visit(new)
     if inliner is not None and inliner.new_consts:
@@ -2432,5 +2432,20 @@ def normalize(fn: ast.FunctionDef, cls: ast.ClassDef | None, qual: str, inliner:
     _while_true_break(new)
     _flatten_else(new)
     new.body = _Strings().visit(ast.Module(body=new.body, type_ignores=[])).body  # substituted text pieces fold into their f-strings
+    if _depth < 2:
+        # closures defined inside the function are functions too: the same normal forms apply to their bodies
+        class Nested(ast.NodeTransformer):
+            def visit_FunctionDef(self, node: ast.FunctionDef) -> ast.AST:
+                try:
+                    return normalize(node, cls, f"{qual}.{node.name}", None, None, _depth + 1)
+                except RecursionError:
+                    return node
+
+            def visit_Lambda(self, node: ast.Lambda) -> ast.AST:
+                return node
+
+            def visit_ClassDef(self, node: ast.ClassDef) -> ast.AST:
+                return node
+        new.body = [Nested().visit(st) for st in new.body]
     ast.fix_missing_locations(new)
     return new
